@@ -397,7 +397,12 @@ class TypedNode(Node):
         This method calls :meth:`add_child` on ``self.parent``.
         """
         return self._parent.add_child(
-            child, before=self, deep=deep, data_id=data_id, node_id=node_id
+            child,
+            kind=self.kind,
+            before=self,
+            deep=deep,
+            data_id=data_id,
+            node_id=node_id,
         )
 
     def append_sibling(
@@ -414,7 +419,12 @@ class TypedNode(Node):
         """
         next_node = self.next_sibling(any_kind=True)
         return self._parent.add_child(
-            child, before=next_node, deep=deep, data_id=data_id, node_id=node_id
+            child,
+            kind=self.kind,
+            before=next_node,
+            deep=deep,
+            data_id=data_id,
+            node_id=node_id,
         )
 
     def move_to(
